@@ -1080,6 +1080,20 @@ pub fn monitor_onchain_view<Signer: crate::sign::ecdsa::EcdsaChannelSigner>(
 	monitor.verif_onchain_view()
 }
 
+/// The monitor's claim bookkeeping (C11): `(claimable_outpoints as (outpoint, creation height,
+/// request pending), locktimed package outpoints with their locktime key, the OnchainTxHandler's
+/// own awaiting entries as (txid, height, is_claim), payment hashes with a known preimage)`.
+pub fn monitor_claims_view<Signer: crate::sign::ecdsa::EcdsaChannelSigner>(
+	monitor: &crate::chain::channelmonitor::ChannelMonitor<Signer>,
+) -> (
+	Vec<(bitcoin::OutPoint, u32, bool)>,
+	Vec<(bitcoin::OutPoint, u32)>,
+	Vec<(bitcoin::Txid, u32, bool)>,
+	Vec<crate::types::payment::PaymentHash>,
+) {
+	monitor.verif_claims_view()
+}
+
 /// Fee-bump / bump-timer / locktime arithmetic of `chain::package` (crate-private), for the
 /// C06/C07 differential.
 pub mod package {
